@@ -121,6 +121,14 @@ def run_contract(contract, src: SourceIndex, mode: str, quick=True, keep_models=
         import multiprocessing as mp
         with mp.get_context('fork').Pool(inner) as pool:
             results = pool.map(_solve_index, range(len(_OBS)), chunksize=4)
+    # a query the solver gave up on (these obligations take well under a second on an idle machine, so `unknown` means the
+    # machine is busy): asked once more, one at a time, with four times the budget
+    for i, r in enumerate(results):
+        if r['status'] == 'unknown':
+            r2 = _solve_index(i, keep_models, timeout_ms=4 * TIMEOUT_MS)
+            r2['time_s'] = round(r2['time_s'] + r['time_s'], 4)
+            r2['retried'] = True
+            results[i] = r2
     info['solve_s'] = round(sum(r['time_s'] for r in results), 3)
     info['solve_wall_s'] = round(time.time() - t0 - info['vcgen_s'], 3)
     return results, info
@@ -130,9 +138,9 @@ _OBS = []
 _CONTRACT = None
 
 
-def _solve_index(i, keep_models=False):
+def _solve_index(i, keep_models=False, timeout_ms=None):
     ob = _OBS[i]
-    status, dt, model, solver = solve(ob)
+    status, dt, model, solver = solve(ob) if timeout_ms is None else solve(ob, timeout_ms)
     backend = 'none' if status == 'unknown' else 'z3-5.1-api'
     sig = None
     if status == 'failed' and model is not None and hasattr(_CONTRACT, 'signature'):
